@@ -16,7 +16,8 @@ RULE = (
     "blank and '='), each through parse_file(use_cpp=True) on a generated one-include file. Oracle: no exception; the result "
     "equals preprocessing by hand (subprocess cpp) and parsing with CParser (dump incl. coordinates); every name typedef'ed in "
     "the result parses as a type in generated trailing declarations 'T v; T *f(T); int s = sizeof(T);'. Hypothesis: random "
-    "subsets (2-15) and orders of headers, same oracle. Non-trivial: single-header runs defining >= 1 typedef (distinct by "
+    "subsets (2-15) and orders of headers, same oracle; including files that make cpp print warnings while it succeeds; 6 (quick) / 60 "
+    "(thorough) rounds of 8 parse_file calls overlapping in time from 8 threads, each compared with the same call made alone. Non-trivial: single-header runs defining >= 1 typedef (distinct by "
     "construction); subsets with >= 3 headers from >= 2 directories (distinct by hash)."
 )
 ASSUMPTIONS = ["the system 'cpp' (gcc 12) is the preprocessor; -nostdinc is passed in list form so that only the fake headers are seen"]
@@ -182,16 +183,80 @@ def subset_shard(arg):
     return st
 
 
+def concurrent_shard(arg):
+    """parse_file calls that overlap in time (a thread pool hiding cpp latency):
+    each call must return what it returns when it runs alone."""
+    import sys
+    import threading
+
+    round_no, nthreads = arg
+    st = Stats()
+    hs = headers()
+    d = tempfile.mkdtemp(prefix="c19t_")
+    try:
+        jobs = []
+        for i in range(nthreads):
+            hdrs = [hs[(round_no * 7 + i * 13 + j * 5) % len(hs)] for j in range(3)]
+            f1 = os.path.join(d, "t%d.c" % i)
+            with open(f1, "w") as f:
+                f.write("".join("#include <%s>\n" % h for h in hdrs) + "size_t n%d; FILE *fp%d; int f%d(va_list a) { return sizeof(wchar_t); }\n" % (i, i, i))
+            args = ["-std=" + ["c99", "c11", "gnu99", "gnu11"][i % 4], "-nostdinc", "-I" + root()] if i % 3 else "-I" + root()
+            jobs.append((f1, args, hdrs))
+        alone = []
+        for f1, args, hdrs in jobs:
+            try:
+                alone.append(("ok", dump(parse_file(f1, use_cpp=True, cpp_args=list(args) if isinstance(args, list) else args), True)))
+            except Exception as e:  # noqa: BLE001
+                alone.append(("err", type(e).__name__, str(e)[:200]))
+        res = [None] * nthreads
+        bar = threading.Barrier(nthreads)
+
+        def work(i):
+            f1, args, hdrs = jobs[i]
+            bar.wait()
+            try:
+                res[i] = ("ok", dump(parse_file(f1, use_cpp=True, cpp_args=list(args) if isinstance(args, list) else args), True))
+            except Exception as e:  # noqa: BLE001
+                res[i] = ("err", type(e).__name__, str(e)[:200])
+
+        old = sys.getswitchinterval()
+        sys.setswitchinterval(1e-5)
+        try:
+            ths = [threading.Thread(target=work, args=(i,)) for i in range(nthreads)]
+            for t in ths:
+                t.start()
+            for t in ths:
+                t.join()
+        finally:
+            sys.setswitchinterval(old)
+        st.evaluations += nthreads
+        st.classes["overlapping_parse_file_calls"] += nthreads
+        for i in range(nthreads):
+            if res[i] != alone[i]:
+                st.failures.append(dict(subcheck="parse_file", case=("concurrent", round_no, nthreads), text="#include " + " ".join(jobs[i][2]), detail="parse_file call %d of %d overlapping calls: %s, alone: %s" % (i, nthreads, res[i][:3] if res[i][0] != "ok" else "ok (different AST)", alone[i][:3] if alone[i][0] != "ok" else "ok"), sig="overlap-differs"))
+                break
+        st.nontrivial += 1
+    finally:
+        shutil.rmtree(d, ignore_errors=True)
+    return st
+
+
 def run(ctx):
     hs = headers()
     ctx.map(header_shard, [(h, ctx.quick) for h in hs], chunksize=2)
     ctx.map(subset_shard, [(s, ctx.pick(6, 200)) for s in ctx.shard_seeds(16)])
+    ctx.map(concurrent_shard, [(ctx.seed * 11 + r, 8) for r in range(ctx.pick(6, 60))])
     ctx.exhaustive = True
     ctx.extra["exhaustive_bounds"] = "%d header files x {c99, c11, gnu99, gnu11} (list form) + string form" % len(hs)
     ctx.extra["headers"] = len(hs)
 
 
 def replay(subcheck, case):
+    if case[0] == "concurrent":
+        r = concurrent_shard((case[1], case[2]))
+        if r.failures:
+            raise CheckFailure(**r.failures[0])
+        return
     if case[0] == "names":
         r = header_shard((case[1][0], True))
         bad = [f for f in r.failures if f["sig"] == "names-depend-on-dialect"]
